@@ -342,8 +342,11 @@ def pcgFloat24 (p : Pcg) : Nat × Pcg :=
   let (u, p') := pcgNext p
   ((u / 2 ^ 32) % 2 ^ 24, p')
 
-def pcgStream : Nat → Pcg → List Nat
+/-- the first `n` outputs of a state machine -/
+def streamOf {σ β : Type} (step : σ → β × σ) : Nat → σ → List β
   | 0, _ => []
-  | n + 1, p => let (x, p') := pcgFloat24 p; x :: pcgStream n p'
+  | n + 1, s => (step s).1 :: streamOf step n (step s).2
+
+def pcgStream (n : Nat) (p : Pcg) : List Nat := streamOf pcgFloat24 n p
 
 end OllamaVerif.Sampler
